@@ -225,9 +225,74 @@ async def check_tree(ctx, case):
                 return
 
 
+async def check_threads(ctx, case):
+    """several validations at the same time in different THREADS, each with an event loop and context-local data of its own (a web
+    server's worker threads): the result of every one of them equals the result of the same validation done alone"""
+    import asyncio
+    import sys
+    import threading
+
+    from ahbicht.validation.validation import validate_deep_anwendungshandbuch
+
+    ctx.set_case("threads", case)
+    subs, reps = case["cases"], case["reps"]
+    baselines = []
+    for sub in subs:
+        out = await TB.validate(sub["spec"], E.World("c15", rc=sub["asg"], fc_mode="text"), sub["soll"], scheduler=None)
+        if out[0] != "ok":
+            ctx.violation(f"validation-raises-{type(out[1]).__name__}", f"validate_deep_anwendungshandbuch under {sub['asg']} {describe(out)[:300]}")
+            return
+        baselines.append(TB.summarise(out[1]))
+    problems = []
+    start = threading.Barrier(len(subs))
+
+    def body(n):
+        sub = subs[n]
+
+        async def go():
+            E.set_world(E.World("c15", rc=sub["asg"], fc_mode="text"))
+            return await validate_deep_anwendungshandbuch(TB.build(sub["spec"]), soll_is_required=sub["soll"])
+
+        try:
+            start.wait(timeout=60)
+            for rep in range(reps):
+                got = TB.summarise(asyncio.run(go()))
+                if got != baselines[n]:
+                    diff = [(a, b) for a, b in zip(got, baselines[n]) if a != b][:1]
+                    problems.append((n, rep, f"thread {n}, repetition {rep}: {diff[0][0] if diff else got[:1]} - alone: {diff[0][1] if diff else baselines[n][:1]}"))
+                    return
+        except BaseException as exc:  # pylint:disable=broad-except
+            problems.append((n, -1, f"thread {n} raised {type(exc).__module__}.{type(exc).__name__}: {exc}"))
+
+    interval = sys.getswitchinterval()
+    sys.setswitchinterval(1e-5)  # thread switches every few bytecodes instead of every 5 ms (scoped to this phase)
+    try:
+        threads = [threading.Thread(target=body, args=(n,), daemon=True) for n in range(len(subs))]
+        for t in threads:
+            t.start()
+        for t in threads:
+            t.join(timeout=600)
+    finally:
+        sys.setswitchinterval(interval)
+    ctx.evaluation(len(subs) * reps)
+    ctx.count("validations_in_concurrent_threads", len(subs) * reps)
+    if problems:
+        ctx.violation("differs-under-threads", f"{len(subs)} validations running in {len(subs)} threads (own event loop and context-local data each): {problems[0][2]}"[:1200])
+
+
+def gen_thread_case(ctx, rng):
+    subs = []
+    for _ in range(4):
+        sub = gen_case(ctx, rng, shared_keys=True)
+        subs.append({"spec": sub["spec"], "asg": sub["asg"], "soll": sub["soll"]})
+    return {"cases": subs, "reps": 12 if ctx.quick else 40}
+
+
 async def run(ctx):
     rng = ctx.rng
     E.install()
+    for i in range(ctx.budget(6, 120)):
+        await check_threads(ctx, gen_thread_case(ctx, rng))
     for i in range(ctx.budget(330, 33_000)):
         case = gen_case(ctx, rng, shared_keys=i % 4 == 3, dates="verdicts" if i % 6 == 5 else i % 6 == 1)
         await check_tree(ctx, case)
@@ -237,4 +302,7 @@ async def run(ctx):
 
 async def replay(ctx, phase, case):
     E.install()
+    if phase == "threads":
+        await check_threads(ctx, case)
+        return
     await check_tree(ctx, case)
